@@ -152,6 +152,9 @@ def micro_c08_scenario(r) -> Dict[str, Any]:
     p1 = max(q(p0 * gap, qp), unit(qp))
     bars = [[1, _s(p0), _s(p0), _s(p0), _s(p0), _s(vol)], [2, _s(p1), _s(p1), _s(p1), _s(p1), _s(vol)],
             [3, _s(p1), _s(p1), _s(p1), _s(p1), _s(vol)]]
+    if r.random() < 0.2:
+        bars[1][5] = "0"          # no liquidity at all in the first bar after the requests
+        bars[2][5] = _s(vol * 10)
     orders = []
     for amt in ([big, small] if r.random() < 0.7 else [small, big, small]):
         orders.append({"op": "order", "kind": r.choice(["market", "market", "stop"]), "side": side, "pair": "BTC/USD",
